@@ -626,6 +626,34 @@ func c19GenFb(t *rapid.T, allowEmptyGrid bool, excluded func()) c19FbCase {
 	bytesPP := uint32(c.Bpp+7) / 8
 	mults := []uint32{c.GlyphW, c.GlyphH, c.GlyphW * bytesPP, c.Width*bytesPP + c.Pad, c.GlyphH * (c.Width*bytesPP + c.Pad)}
 	c.Ops = rapid.SliceOfN(c19GenOp(c.Width/c.GlyphW, gridRows, special, mults), 1, 25).Draw(t, "ops")
+	if rapid.IntRange(0, 2).Draw(t, "fewglyphs") == 0 {
+		// a screen that shows the same few characters in the same few colours over and over (a
+		// prompt, a progress line): the writes of this case use two characters, two foreground
+		// and two background colours, and hit the same cells again after scrolls
+		var first *c19Op
+		for i := range c.Ops {
+			if c.Ops[i].Kind == "write" {
+				if first == nil {
+					first = &c.Ops[i]
+				}
+				op := &c.Ops[i]
+				op.Ch = first.Ch + op.Ch%2
+				if op.Fg%2 == 0 {
+					op.Fg = first.Fg
+				} else {
+					op.Fg = first.Bg
+				}
+				if op.Bg%2 == 0 {
+					op.Bg = first.Bg
+				} else {
+					op.Bg = first.Fg
+				}
+				if cols := c.Width / c.GlyphW; cols > 0 && gridRows > 0 {
+					op.X, op.Y = 1+op.X%cols%2, gridRows-op.Y%gridRows%3 // near the bottom-left corner
+				}
+			}
+		}
+	}
 	if c.Logo != nil && rapid.IntRange(0, 3).Draw(t, "drawbeforelogo") == 0 {
 		c.PreOps = rapid.SliceOfN(c19GenOp(c.Width/c.GlyphW, c.Height/c.GlyphH, special, mults), 1, 6).Draw(t, "preops")
 	}
